@@ -161,6 +161,13 @@ pub mod c01 {
     ) -> Result<Vec<(String, Vec<(String, Vec<u64>)>)>, OperationError> {
         let mut out = Vec::new();
         for name in be.list_indexes()? {
+            // `idx_name2uuid`, `idx_uuid2spn`, … share the prefix but are not attribute indexes.
+            if !["idx_eq_", "idx_sub_", "idx_pres_", "idx_ord_"]
+                .iter()
+                .any(|p| name.starts_with(p))
+            {
+                continue;
+            }
             let rows = be
                 .list_index_content(&name)?
                 .into_iter()
@@ -338,5 +345,146 @@ pub mod c35 {
             limit_search_max_results: r.limit_search_max_results(),
             allow_primary_cred_fallback: r.allow_primary_cred_fallback(),
         }
+    }
+}
+
+/// C12: the storage / replication encodings of valuesets and entries (the `Db*` types live in
+/// `pub(crate)` modules), and constructors for credential shapes that are crate-private.
+pub mod c12 {
+    use super::*;
+    use crate::be::dbentry::DbEntry;
+    use crate::be::dbvalue::DbValueSetV2;
+    use crate::credential::apppwd::ApplicationPassword;
+    use crate::credential::totp::Totp;
+    use crate::credential::{BackupCodes, Credential};
+    use crate::entry::Eattrs;
+    use crate::repl::entry::{EntryChangeState, State};
+    use crate::repl::proto::{ReplCidRange, ReplEntryV1, ReplIncrementalEntryV1};
+    use crate::schema::SchemaReadTransaction;
+    use crate::valueset::{self, ValueSet};
+    use kanidm_lib_crypto::Password;
+    use time::OffsetDateTime;
+
+    pub fn cred_from_password(pw: Password, generated: bool, ts: OffsetDateTime) -> Credential {
+        if generated {
+            Credential::new_from_generatedpassword(pw, ts)
+        } else {
+            Credential::new_from_password(pw, ts)
+        }
+    }
+
+    pub fn cred_append_totp(c: &Credential, label: String, totp: Totp, ts: OffsetDateTime) -> Credential {
+        c.append_totp(label, totp, ts)
+    }
+
+    pub fn cred_update_backup_code(
+        c: &Credential,
+        codes: BackupCodes,
+        ts: OffsetDateTime,
+    ) -> Result<Credential, OperationError> {
+        c.update_backup_code(codes, ts)
+    }
+
+    pub fn cred_totp_labels(c: &Credential) -> Vec<String> {
+        match &c.type_ {
+            crate::credential::CredentialType::PasswordMfa(_, totp, _, _) => {
+                let mut v: Vec<String> = totp.keys().cloned().collect();
+                v.sort();
+                v
+            }
+            _ => vec![],
+        }
+    }
+
+    pub fn cred_totp_verify(c: &Credential, label: &str, chal: u32, time: Duration) -> Option<bool> {
+        match &c.type_ {
+            crate::credential::CredentialType::PasswordMfa(_, totp, _, _) => {
+                totp.get(label).map(|t| t.verify(chal, time))
+            }
+            _ => None,
+        }
+    }
+
+    pub fn cred_backup_code_verify(c: &Credential, code: &str) -> Option<bool> {
+        match &c.type_ {
+            crate::credential::CredentialType::PasswordMfa(_, _, _, Some(b)) => Some(b.verify(code)),
+            _ => None,
+        }
+    }
+
+    pub fn app_password(uuid: Uuid, application: Uuid, label: String, password: Password) -> ApplicationPassword {
+        ApplicationPassword { uuid, application, label, password }
+    }
+
+    pub fn app_password_parts(ap: &ApplicationPassword) -> (Uuid, Uuid, String, &Password) {
+        (ap.uuid, ap.application, ap.label.clone(), &ap.password)
+    }
+
+    /// `to_db_valueset_v2` + serde_json (the bytes the backend writes for one attribute).
+    pub fn vs_to_db_json(vs: &ValueSet) -> Result<String, String> {
+        serde_json::to_string(&vs.to_db_valueset_v2()).map_err(|e| format!("serde: {e}"))
+    }
+
+    /// serde_json + `from_db_valueset_v2`.
+    pub fn vs_from_db_json(s: &str) -> Result<ValueSet, String> {
+        let db: DbValueSetV2 = serde_json::from_str(s).map_err(|e| format!("serde: {e}"))?;
+        valueset::from_db_valueset_v2(db).map_err(|e| format!("decode: {e:?}"))
+    }
+
+    /// `to_db_valueset_v2` → `from_db_valueset_v2` without serde in between.
+    pub fn vs_direct_roundtrip(vs: &ValueSet) -> Result<ValueSet, String> {
+        valueset::from_db_valueset_v2(vs.to_db_valueset_v2()).map_err(|e| format!("decode: {e:?}"))
+    }
+
+    pub fn entry_to_db_json(e: &EntrySealedCommitted) -> Result<String, String> {
+        serde_json::to_string(&e.to_dbentry()).map_err(|e| format!("serde: {e}"))
+    }
+
+    pub fn entry_from_db_json(s: &str, id: u64) -> Result<Option<EntrySealedCommitted>, String> {
+        let db: DbEntry = serde_json::from_str(s).map_err(|e| format!("serde: {e}"))?;
+        Ok(EntrySealedCommitted::from_dbentry(db, id))
+    }
+
+    /// (is live, at, per-attribute change cids)
+    pub type ChangeStateDump = (bool, Cid, BTreeMap<Attribute, Cid>);
+
+    pub fn changestate_dump(cs: &EntryChangeState) -> ChangeStateDump {
+        match cs.current() {
+            State::Live { at, changes } => (true, at.clone(), changes.clone()),
+            State::Tombstone { at } => (false, at.clone(), BTreeMap::new()),
+        }
+    }
+
+    pub fn entry_changestate(e: &EntrySealedCommitted) -> ChangeStateDump {
+        changestate_dump(e.get_changestate())
+    }
+
+    /// `ReplEntryV1::new` → serde_json → `rehydrate`.
+    pub fn repl_full_roundtrip(
+        e: &EntrySealedCommitted,
+        schema: &SchemaReadTransaction,
+    ) -> Result<(String, ChangeStateDump, Eattrs), String> {
+        let r = ReplEntryV1::new(e, schema);
+        let s = serde_json::to_string(&r).map_err(|e| format!("serde: {e}"))?;
+        let back: ReplEntryV1 = serde_json::from_str(&s).map_err(|e| format!("serde: {e}"))?;
+        let (cs, attrs) = back.rehydrate().map_err(|e| format!("rehydrate: {e:?}"))?;
+        Ok((s, changestate_dump(&cs), attrs))
+    }
+
+    /// `ReplIncrementalEntryV1::new` → serde_json → `rehydrate`; `ranges`: server uuid ↦ (ts_min, ts_max).
+    pub fn repl_incr_roundtrip(
+        e: &EntrySealedCommitted,
+        schema: &SchemaReadTransaction,
+        ranges: &BTreeMap<Uuid, (Duration, Duration)>,
+    ) -> Result<(String, Uuid, ChangeStateDump, Eattrs), String> {
+        let ctx: BTreeMap<Uuid, ReplCidRange> = ranges
+            .iter()
+            .map(|(u, (a, b))| (*u, ReplCidRange { ts_min: *a, ts_max: *b }))
+            .collect();
+        let r = ReplIncrementalEntryV1::new(e, schema, &ctx);
+        let s = serde_json::to_string(&r).map_err(|e| format!("serde: {e}"))?;
+        let back: ReplIncrementalEntryV1 = serde_json::from_str(&s).map_err(|e| format!("serde: {e}"))?;
+        let (u, cs, attrs) = back.rehydrate().map_err(|e| format!("rehydrate: {e:?}"))?;
+        Ok((s, u, changestate_dump(&cs), attrs))
     }
 }
